@@ -1296,11 +1296,17 @@ def slide(
                 # Now we are sure that all other related heads had the chance to process
                 # Let's resolve competing heads and merge them with the winner
 
-                # Extract all heads that arrived at a merge statement
+                # Extract all heads that arrived at this merge statement (a head that
+                # merges at the fork of an inner group does not compete here)
                 merging_heads = [
                     flow_state.heads[head_uid]
                     for head_uid in merging_head_uids
                     if flow_state.heads[head_uid].status == FlowHeadStatus.MERGING
+                    and cast(
+                        MergeHeads,
+                        flow_config.elements[flow_state.heads[head_uid].position],
+                    ).fork_uid
+                    == element.fork_uid
                 ]
 
                 picked_head = head
